@@ -73,6 +73,10 @@ CHECKS={
    text="The whole pipeline is run, in crash-isolated worker processes with a hang watchdog, on the union of complete / bounded-exhaustive streams: every reachable scanner state's representative x every alphabet token (complete E-SCAN graph, ~16k states x 339 tokens), every reachable context-resolution state's representative (~343k), all sequences of <=2 (thorough 3) directive variants, all paste graphs over <=3 (4) macros, include placements x trailing junk x target states x contents and all include graphs over 3 files, the fixture corpus with its complete one-line-edit neighbourhood, pool documents under every single ban / all bans, names over a stress alphabet. Oracle: no panic, no worker death (stack overflow, fatal error), no hang, result is a catalog or a JApiError, no Go runtime fault text in a diagnostic, and (through a build-time overlay of the schema library's panic handler) no runtime fault recovered inside the dependency.",
    ref="DESIGN.md §5 C01", note="Hang limit 90 s per case. The S x K product is approximated by S x tokens and K representatives separately (both graphs complete). One open finding: a runtime fault inside the pinned schema library (known_findings.jsonl).",
    technique=T_MC+"exhaustive exploration of state-graph representatives x tokens plus bounded-exhaustive input/fault streams, crash-isolated workers, fault attribution by overlay"),
+ "C09":dict(engine="E-STREAMS",
+   text="Every accepted run of the shared streams (pool, corpus + one-line-edit neighbourhood, context-state representatives, directive-variant sequences, paste graphs, include scenarios, option sets; thorough: the scanner-state x token product too) and of an exhaustive name sweep (all strings of length <=2 / <=3 over 11 stress characters incl. invalid UTF-8 in 14 name-bearing positions, JSON-RPC id collisions) is checked on the bytes: valid UTF-8 JSON, no repeated key in any object (order-preserving reader), indented = compact, key = id = protocol+method+path, mutual tag/interaction references, used types and enums exist, bodies present with format matching notation, Title() = info.title.",
+   ref="DESIGN.md §5 C09", note="Only accepted runs are judged; the streams are regenerated by this check (shared code, not shared results).",
+   technique=T_MC+"bounded-exhaustive input streams with a structural oracle on the serialised bytes"),
 }
 ENGINES=[
  {"name":"E-SCAN","path":"internal/escan","serves_properties":["C14"],"kind_free_text":"explicit-state BFS over the real scanner.Next with a per-byte hook; abstract key cross-checked by second representatives"},
